@@ -149,6 +149,14 @@ def run(ctx):
             if isinstance(what, LazyDict) and not all(type(e) is dict for e in getattr(pobj, fname)):
                 what = collections.defaultdict(lambda: None, plain)      # whole-value rules compare the dictionary itself
             out.count('dict-subclass-value')
+        elif type(what) is dict and rng.random() < 0.15:
+            # the same dictionary with one more attribute whose name is not a string (an integer id, a tuple, None):
+            # extra attributes never matter to an attribute element, whatever their names are
+            what = dict(what)
+            what[pick(rng, [7, (1, 2), None, 2.5, frozenset([1]), True])] = pick(rng, [3, 'x', None])
+            if not all(type(e) is dict for e in getattr(pobj, fname)):
+                m = None              # a whole-value rule sees the extra attribute: judged by the direct oracle only
+            out.count('non-string-attribute-name')
         try:
             a = ch.fits(pobj, fname, what, iobj)
             impl = 'ok T' if a else 'ok F'
@@ -156,7 +164,7 @@ def run(ctx):
         except Exception as e:
             impl = 'raise'
             strict = True
-        mutated = what is not plain and not isinstance(what, LazyDict) and dict(what) != plain
+        mutated = what is not plain and not isinstance(what, LazyDict) and type(what) is not dict and dict(what) != plain
         offered = what
         what = plain
         elems = getattr(pobj, fname)
